@@ -114,3 +114,41 @@ Section Main.
     rewrite Hr, Nat.add_0_r. apply range_n_length.
   Qed.
 End Main.
+
+(* ------------------------------------------------------------------ with the translated validator plugged in *)
+Require Import RV.Proofs.CodeConfig.
+
+(* is_valid_config on what the loader produced; ds / ap: the state of the persistence directory and whether
+   "<interface>:<port>" parses (inputs). A validator that panics does not start the server either. *)
+Definition valid_of (ds : bytes -> dirinfo) (ap : bytes -> Z -> bool) (c : lcfg) : bool :=
+  match gen_is_valid_config (to_settings c ds ap) with Ok true => true | _ => false end.
+
+Lemma valid_of_iff : forall ds ap c, valid_of ds ap c = true <-> config_ok (to_settings c ds ap) = true.
+Proof.
+  intros ds ap c. unfold valid_of. rewrite <- gen_is_valid_config_iff.
+  destruct (gen_is_valid_config (to_settings c ds ap)) as [[|]| |]; split; intro H; try reflexivity; try discriminate H.
+Qed.
+
+(* the server gets as far as spawning threads exactly when the loader returns a configuration that is one of the
+   documented ones (config_ok); otherwise it exits with status 1 (or the loader panicked) before spawning *)
+Theorem main_runs_iff_documented : forall argc arg cores env fs ds ap bind_ok joins_ok,
+  argc = 2 ->
+  match (if bytes_eqb arg t_ENV then env_load cores env else file_load cores (fs arg)) with
+  | Ok c => if config_ok (to_settings c ds ap)
+            then main_spec argc arg cores env fs (valid_of ds ap) bind_ok joins_ok
+                 = (if forallb bind_ok (range_n 0 (Z.to_N (lc_workers c))) then
+                      if forallb joins_ok (threads_of c) then Err (ExitWith 0 (threads_of c)) else Panic site_gen
+                    else Panic site_gen)
+            else main_spec argc arg cores env fs (valid_of ds ap) bind_ok joins_ok = Err (ExitWith 1 [])
+  | Err _ => main_spec argc arg cores env fs (valid_of ds ap) bind_ok joins_ok = Err (ExitWith 1 [])
+  | Panic p => main_spec argc arg cores env fs (valid_of ds ap) bind_ok joins_ok = Panic p
+  end.
+Proof.
+  intros argc arg cores env fs ds ap bind_ok joins_ok ->. unfold main_spec. change (negb (2 =? 2)) with false. cbv iota.
+  destruct (if bytes_eqb arg t_ENV then env_load cores env else file_load cores (fs arg)) as [c|e|p]; try reflexivity.
+  destruct (config_ok (to_settings c ds ap)) eqn:Ec.
+  - apply valid_of_iff in Ec. rewrite Ec. reflexivity.
+  - assert (Hv : valid_of ds ap c = false).
+    { destruct (valid_of ds ap c) eqn:Ev; [|reflexivity]. apply valid_of_iff in Ev. congruence. }
+    rewrite Hv. reflexivity.
+Qed.
